@@ -241,11 +241,20 @@ fn run_tape(part: &str, tape: &[u8], cx: &mut Cx) -> Res {
                 let k = 1 + t.below(3);
                 for _ in 0..k {
                     let i = t.below(b.len());
-                    b[i] = match t.below(3) {
-                        0 => 0xff,
-                        1 => b[i] ^ (1 << t.below(8)),
-                        _ => t.byte(),
-                    };
+                    match t.below(5) {
+                        0 => b[i] = 0xff,
+                        1 => b[i] ^= 1 << t.below(8),
+                        // edits that keep simple digests (sum, xor, 31-polynomial) unchanged: swap two octets; +1 / -31 on neighbours
+                        2 => {
+                            let j = t.below(b.len());
+                            b.swap(i, j);
+                        }
+                        3 if i + 1 < b.len() => {
+                            b[i] = b[i].wrapping_add(1);
+                            b[i + 1] = b[i + 1].wrapping_sub(31);
+                        }
+                        _ => b[i] = t.byte(),
+                    }
                 }
                 check_message(&b, "wire-mutated-in-place", cx)?;
             }
